@@ -178,6 +178,91 @@ def _parse_full_length(term: str, repo=None, buf: Optional[str] = None):
     return None
 
 
+def window_needed(ev, repo, buf: Optional[str] = None) -> Optional[int]:
+    """Number of buffered bytes the fixed-window read of the receive buffer in this event relies on: ``unpack(fmt, buf[a:b])`` /
+    ``S.unpack(buf[a:b])`` / ``int.from_bytes(buf[a:b], ..)`` need b, ``unpack_from(fmt, buf, a)`` needs a + calcsize(fmt),
+    ``indexbytes(buf, i)`` needs i + 1.  None when the event does not read a window of the buffer with literal bounds
+    (prefix and remainder slices with a computed bound are B2's own subject)."""
+    import struct as _st
+    from ..srcmodel import StructVal
+    buf = buf or BUF
+    callee = ev.callee
+    last = callee.rsplit('.', 1)[-1]
+
+    def window(term):
+        try:
+            x = ast.parse(term, mode='eval').body
+        except SyntaxError:
+            return None
+        lo, hi = 0, None
+        chain = []
+        while isinstance(x, ast.Subscript) and isinstance(x.slice, ast.Slice) and x.slice.step is None:
+            chain.append(x.slice)
+            x = x.value
+        if ast.unparse(x) != buf or not chain:
+            return None
+        for sl in reversed(chain):
+            l_ = 0 if sl.lower is None else (sl.lower.value if isinstance(sl.lower, ast.Constant) and isinstance(sl.lower.value, int) else None)
+            h_ = None if sl.upper is None else (sl.upper.value if isinstance(sl.upper, ast.Constant) and isinstance(sl.upper.value, int) else 'x')
+            if l_ is None or l_ < 0 or h_ == 'x' or (h_ is not None and h_ < 0):
+                return None
+            nhi = None if h_ is None else lo + h_
+            hi = nhi if hi is None else (hi if nhi is None else min(hi, nhi))
+            lo = lo + l_
+        return lo, hi
+
+    def width_of(fmt_term, recv_term):
+        fmt = None
+        try:
+            e = ast.parse(fmt_term, mode='eval').body if fmt_term is not None else None
+        except SyntaxError:
+            e = None
+        if isinstance(e, ast.Constant) and isinstance(e.value, (str, bytes)):
+            fmt = e.value
+        elif recv_term is not None:
+            try:
+                v = repo.try_fold(ast.parse(recv_term, mode='eval').body, repo.module('dulprovider'), repo.cls('dulprovider', 'DULServiceProvider'))
+            except SyntaxError:
+                v = None
+            if isinstance(v, StructVal):
+                fmt = v.fmt
+        if fmt is None:
+            return None
+        try:
+            return _st.calcsize(fmt)
+        except _st.error:
+            return None
+    args = list(ev.args)
+    if last == 'unpack':
+        data = args[-1] if args else None
+        w = window(data) if data else None
+        return w[1] if w and w[1] is not None else None
+    if last == 'from_bytes':
+        w = window(args[0]) if args else None
+        return w[1] if w and w[1] is not None else None
+    if last == 'unpack_from':
+        if callee == 'struct.unpack_from':
+            fmt_t, rest, recv_t = (args[0] if args else None), args[1:], None
+        else:
+            fmt_t, rest, recv_t = None, args, callee.rsplit('.', 1)[0]
+        if not rest or rest[0] != buf:
+            return None
+        off_ = 0
+        if len(rest) > 1:
+            if not rest[1].isdigit():
+                return None
+            off_ = int(rest[1])
+        wd = width_of(fmt_t, recv_t)
+        return None if wd is None else off_ + wd
+    if last == 'indexbytes':
+        if len(args) == 2 and args[0] == buf and args[1].isdigit():
+            return int(args[1]) + 1
+        w = window(args[0]) if args else None
+        if w and len(args) == 2 and args[1].isdigit():
+            return w[0] + int(args[1]) + 1
+    return None
+
+
 def buffer_anchor(repo):
     """The rules about the receive buffer read it as the bytes-valued attribute ``raw_pdu`` of the provider, written by plain
     assignments.  When it is not that any more (kept in an object of its own, behind a property) what the rules would say
@@ -463,6 +548,28 @@ def run(repo, rep):
             problems.append('body guard is not strict: a complete PDU is held back until %d more byte(s) arrive' % max(g2))
     if n_decode == 0:
         raise AnalysisError('no path through _check_network reaches a PDU decode')
+    # every fixed window of the buffer that is read anywhere in the provider (not only on the way to the decode) is read
+    # under a guard for that many bytes: recv() may return any non-empty prefix of what was asked for, so "the buffer is not
+    # empty" says nothing about a complete header
+    n_windows = 0
+    for fn_ in sorted(set(PRODUCERS) | {'_check_incoming_pdu', '_process_incoming'}):
+        if pm.cls.find_method(fn_) is None:
+            continue
+        _fin, log_ = pm.paths_and_log(fn_, inline_helpers=False)
+        for ev, _st_ in log_:
+            if ev.kind not in ('unpack', 'indexbytes'):
+                continue
+            need = window_needed(ev, repo)
+            if need is None:
+                continue
+            n_windows += 1
+            have = [as_int(t) + sl for (t, sl) in (b for b in (_len_buf_bound(c) for c in ev.conds) if b) if as_int(t) is not None]
+            if not have or max(have) < need:
+                problems.append('line %d reads buffer bytes up to offset %d on a path that guarantees %s buffered byte(s): recv() may '
+                                'have returned only part of the header' % (ev.line, need, max(have) if have else
+                                                                           ('at least 1' if '+' + BUF in ev.conds else 'no')))
+    if n_windows == 0:
+        raise AnalysisError('no fixed-window read of the receive buffer found: the length field is read in a form the rule does not know')
     rep.check(not problems, 'C03.B2', 'dulprovider:DULServiceProvider._process_incoming:header-arithmetic',
               pm.method('_process_incoming').loc(),
               'guards, length slice [%d:%d], big-endian unpack, +%d and both slices agree on %d decode path(s)'
